@@ -317,6 +317,19 @@ func (st *State) bind(lhs ast.Expr, v Val, tok token.Token) {
 }
 
 func (st *State) assignTo(lhs ast.Expr, v Val) {
+	if _, isIdent := ast.Unparen(lhs).(*ast.Ident); !isIdent && st.fc.isRG() && !st.rgInAtomic && st.fc.inlineDepth == 0 && st.rgPre == nil && st.rgLate {
+		// rely-guarantee mode: a plain (non-atomic) store into memory is visible to the other goroutines as well:
+		// it must satisfy the guarantee and keep the shared invariant, like an atomic step (no interference is
+		// inserted before it: the access is assumed race free, which the guarantee makes explicit)
+		st.rgPre = st.snapshot(nil)
+		st.assignTo1(lhs, v)
+		st.rgCheckStep("plain-store("+exprStr(lhs)+")", lhs.Pos())
+		return
+	}
+	st.assignTo1(lhs, v)
+}
+
+func (st *State) assignTo1(lhs ast.Expr, v Val) {
 	switch x := lhs.(type) {
 	case *ast.ParenExpr:
 		st.assignTo(x.X, v)
